@@ -32,6 +32,8 @@ def c3(ctx):
 def c4(ctx):
     mutate.serialization_fails_loudly(ctx)
     writers.charts_items(ctx)
+    writers.base_items(ctx)
+    writers.ssc_chart_items(ctx)
 
 
 def c_api(ctx):
@@ -41,6 +43,6 @@ CLAUSES = [
     ("C06.1", "handler discipline around the yield (R-EXC)", c1),
     ("C06.2-4", "nothing that can fail for data reasons happens after truncation; backup complete first (R-ORDER)", c2),
     ("C06.5", "write-effect census over mutate's call tree", c3),
-    ("C06.6", "a failing serialization raises out of str(simfile): nothing swallows it (R-EXC); every chart-list element is written by its own serialize(), so a non-chart raises", c4),
+    ("C06.6", "a failing serialization raises out of str(simfile): nothing swallows it (R-EXC); every chart-list element is written by its own serialize(), so a non-chart raises; every item is written as one escaped MSD parameter, so the backup parses to the original (shared with C01, C02)", c4),
     ("C06.api", "public surface: signatures and defaults, constants, enumerations, blank templates, base classes as confirmed (R-API)", c_api),
 ]
